@@ -57,6 +57,27 @@ let run line =
        | [m] -> (match Model.enc_msg (ext = "1") (ap = "1") (msg_of m) with Some b -> "ok " ^ hex_of b | None -> "toolong")
        | _ -> "err parse")
   | ["dec"; ap; h] -> (match Model.dec_msg (ap = "1") (of_hex h) with Some m -> "ok " ^ show_msg m | None -> "err")
+  | ["nlri"; afi; safi; h] ->
+      (match Model.nlri_from_slice (zi (int_of_string afi)) (zi (int_of_string safi)) (of_hex h) with
+       | None -> "err"
+       | Some (v, n) ->
+           let dash f l = if l = [] then "-" else f l in
+           let re = match Model.nlri_serialize (zi (int_of_string afi)) (zi (int_of_string safi)) v with Some b -> hex_of b | None -> "reser-err" in
+           Printf.sprintf "ok %s %s %s %s %s %s" (zs n) (dash (fun l -> String.concat "," (List.map zs l)) v.Model.f_labels)
+             (dash hex_of v.Model.f_rd) (zs v.Model.f_bits) (dash hex_of v.Model.f_oct) re)
+  | ["mknlri"; afi; safi; labels; rd; bits; addr] ->
+      let a, s = zi (int_of_string afi), zi (int_of_string safi) in
+      (match Model.family_kind a s with
+       | None -> "err family"
+       | Some (k, _) ->
+           let b = z (Sx.A bits) in
+           let n = int_of_string (zs (Model.octets_of b)) in
+           let full = of_hex addr in
+           let oct = List.filteri (fun i _ -> i < n) full in
+           let oct = Model.mask_last (Model.last_mask b) oct in   (* every constructor masks the prefix *)
+           let v = { Model.f_labels = (if labels = "-" then [] else List.map (fun x -> z (Sx.A x)) (String.split_on_char ',' labels));
+                     f_rd = (if rd = "-" then [] else of_hex rd); f_bits = b; f_oct = oct } in
+           (match Model.enc_fnlri k v with Some e -> Printf.sprintf "ok %s %s" (hex_of e) (zs (Model.fnlri_len k v)) | None -> "err serialize"))
   | _ -> "err unknown-op"
 let () =
   try
